@@ -331,6 +331,8 @@ def prepare_attr_value(
     Returns:
         The prepared value.
     """
+    if value is UNCHANGED:
+        return UNCHANGED  # Nothing to prepare: `mutate_attr` leaves the attribute as it is.
     value = mutate_value(
         old_value=MISSING,
         new_value=value,
